@@ -1,5 +1,5 @@
 """C04: a command starts only after everything it needs is up to date and in place."""
-import enginecheck as ec
+import enginecheck as ec, histmodel
 from props import engcommon
 LEVEL = 'proof'; TRUSTED = engcommon.TRUSTED_ENGINE; ASSUMPTIONS = engcommon.ASSUMPTIONS_ENGINE
 def real_binary(ctx):
@@ -17,3 +17,6 @@ def run(ctx):
     real_binary(ctx)
     engcommon.run_engine_property(ctx, 'C04', plan_accept=600, oracles=[('start-order', lambda h, st, b, prev: ec.oracle_c04(h, st, b))], faults=0.15,
                                   feat=dict(subdirs=0.5, rsp=0.4, orderonly=0.5, dyndep=0.3), extra_hists=motifs)
+    # the parallel semantics (coq/Engine/HistParDefs.v, theorems of Properties_C01par.v) run against the engine's real -j N runs:
+    # ninja's start / finish events are the schedule; the model must accept it (every input ready at every start) and reach the same state
+    histmodel.hook(ctx, 'C04', par=True, quick=300, thorough=3000, key='hist_model_parallel_schedules')
